@@ -89,6 +89,25 @@ class C08(vlib.Check):
                 yield '%s_z %s - cs' % (op, hx(s))
                 yield '%s_u %s - ci' % (op, hx(s))
         # ---- seeded: medium subjects over a small alphabet (quick) and long ones
+        # long separators (8..17 bytes: word-at-a-time comparison territory) with near-occurrences that differ only in
+        # bit 5 of a letter (matches case-insensitively only), of a non-letter, of NUL / space or of a high byte (never)
+        flip_classes = [b'abcXYZ', b'[{@`', b'\x00 ', b'\xc9\xe9\xc1\xda', b'_\x7f', b'19']
+        for n in (8, 9, 15, 16, 17):
+            for ci_flip in flip_classes:
+                for rep in range(2 if not thorough else 10):
+                    base = bytes(rng.choice(b'abcxyz019,;') for _ in range(n))
+                    pos = rng.randrange(n)
+                    sep = bytearray(base)
+                    sep[pos] = rng.choice(ci_flip)
+                    sep = bytes(sep)
+                    near = bytearray(sep)
+                    near[pos] ^= 0x20
+                    near = bytes(near)
+                    subj = b'p' + near + b'-' + sep + b'q' + near.swapcase() + b'r'
+                    for c in self.ba_cases(subj, sep, ('cs', 'ci')):
+                        yield c
+                    for c in self.ba_cases(b'p' + near + b'q', sep, ('cs', 'ci')):
+                        yield c
         for _ in range(1500 if not thorough else 30000):
             n = rng.choice([5, 6, 7, 8, 15, 16, 17, 18, 31, 40, 100, 300]) if rng.random() < 0.3 else rng.randrange(5, 10)
             s = rand_bytes(rng, n, rng.choice([b'ab', b'aA-', b'ab\x00', b'abcABC\xc3\xa9\x00-']))
